@@ -7,6 +7,7 @@ functions in /verif/kani/harness/*.rs; they are BOUNDED stand-ins unless marked 
 
 V = ['arena']
 VR = ['arena', 'rawvec']
+VRV = ['arena', 'rawvec', 'vecops']
 
 PLAN = {
     'C01': dict(v=V, level='proof',
@@ -88,7 +89,7 @@ PLAN = {
                             'compacted valid prefix"; it is discharged on the real bodies for all lengths. Operations guarded by other means (drain/'
                             'splice/IntoIter drops, arena slice fills, Box) are NOT decided.',
                 assumptions=['element values are abstracted to slot indices (rewrite R16); Vec::reserve is an assumed shim in this unit']),
-    'C18': dict(v=VR, level='proof', k_quick=['k_vec_shrink_moves'], k_thorough=['k_vec_reserve_shrink_small', 'k_ncmd'],
+    'C18': dict(v=VRV, level='proof', k_quick=['k_vec_shrink_moves'], k_thorough=['k_vec_reserve_shrink_small', 'k_ncmd'],
                 technique='Verus: capacity postcondition of the constructor, chunk_capacity spec + fast-path completeness; growth policy by Kani; RawVec arithmetic by Verus',
                 explanation='try_with_min_align_and_capacity(c) is verified to return an arena whose current chunk has finger - data >= c; chunk_capacity returns finger - data and '
                             'fast.complete says every request with rup(size) <= that fits. "New chunk >= 2x previous" is a bounded Kani check of the real slow path.'),
